@@ -670,6 +670,8 @@ package compose
 
 //@ func (*runner).resolveCompletedTasks
 //@   props C01 C02 C19
+//@   at call 1 copyItem: assert[one_copy_per_consumer] @C19 arg1 == len(t.call.writeTo) + 2 * len(t.call.writeToBranches)
+//@   note one_copy_per_consumer: every copy made of a node's output has a consumer (one per data successor, two per branch: the condition and the selected targets); a surplus copy is never closed and keeps the source open
 //@   requires r != nil && cmOK(cm) && tablesOK(cm) && branchHandlersOK(r)
 //@   requires[tasks] forall(j int :: 0 <= j && j < len(completedTasks) ==> taskOK(r, cm, completedTasks[j], isStream))
 //@   modifies fresh(), chanCtl(cm)
